@@ -1015,7 +1015,7 @@ package dsl
 //@   property C09
 //@   ensures non_definitions_descend: !(typeof(node) == TypeDefinition) ==> called("dsl.(Visitor).VisitChildren")
 //@ func validateRecordFieldNames$1
-//@   property C09
+//@   property C09,C08
 //@   requires errorSink != nil
 //@   ensures non_records_descend: typeof(node) != *RecordDefinition ==> called("dsl.(Visitor).VisitChildren")
 // every field and computed field: a badly-cased name is an error; a name already used on the record is an error;
@@ -1045,7 +1045,7 @@ package dsl
 //@   iteration 1: badly_cased_computed_field_is_an_error: !lastResult("regexp.(*Regexp).MatchString") ==> len(errorSink.Errors) > old(len(errorSink.Errors))
 //@   iteration 1: repeated_computed_field_name_is_an_error: old(field.Name in fields) ==> len(errorSink.Errors) > old(len(errorSink.Errors))
 //@ func validateProtocolSequenceNames$1
-//@   property C09
+//@   property C09,C08
 //@   requires errorSink != nil
 //@   ensures non_protocols_descend: typeof(node) != *ProtocolDefinition ==> called("dsl.(Visitor).VisitChildren")
 //@   invariant 0: forall k in 0..rangeindex+1 :: (protocol.Sequence[k].Name in steps)
